@@ -110,6 +110,12 @@ func main() {
 	case "collide":
 		scenarioCollide(*stacks)
 		return
+	case "close2":
+		scenarioClose2(*stacks)
+		return
+	case "closefault":
+		scenarioCloseFault(*stacks)
+		return
 	}
 	if err := os.MkdirAll(*out, 0o755); err != nil {
 		panic(err)
